@@ -80,7 +80,7 @@ structure FuelAt (env : PEnv) (f : Nat) : Prop where
   objF : ∀ acc i, 4 * (env.toks.size - i) + 2 ≤ f →
     pObj env f acc i ≠ .error .fuel ∧ ∀ e j, pObj env f acc i = .ok (e, j) → i ≤ j
 
-theorem fuel_nud {env : PEnv} {f : Nat} (ih : FuelAt env f) (t : Token) (i : Nat) (bp : Float)
+theorem fuel_nud {env : PEnv} {f : Nat} (ih : FuelAt env f) (t : Token) (i : Nat) (bp : BP)
     (nud : Nud) (hf : 4 * (env.toks.size - i) + 4 ≤ f) :
     nudRes env f t i bp nud ≠ .error .fuel ∧
     ∀ e j, nudRes env f t i bp nud = .ok (e, j) → i ≤ j := by
@@ -99,7 +99,7 @@ theorem fuel_nud {env : PEnv} {f : Nat} (ih : FuelAt env f) (t : Token) (i : Nat
   all_goals grind
 
 theorem fuel_led {env : PEnv} {f : Nat} (ih : FuelAt env f) (left : Expr) (t : Token) (i : Nat)
-    (bp : Float) (led : Led) (hf : 4 * (env.toks.size - i) + 4 ≤ f) :
+    (bp : BP) (led : Led) (hf : 4 * (env.toks.size - i) + 4 ≤ f) :
     ledRes env f left t i bp led ≠ .error .fuel ∧
     ∀ e j, ledRes env f left t i bp led = .ok (e, j) → i ≤ j := by
   have ihE := ih.exprF
